@@ -344,6 +344,9 @@ func (b *c17Builder) interfaces() {
 				cp := *f
 				cp.Dirs = nil
 				cp.Args = append([]*c17Arg{}, f.Args...)
+				if f.Name == "linked" && t == b.obj(0) {
+					cp.Type += "!"
+				}
 				t.Fields = append(t.Fields, &cp)
 			}
 		}
@@ -352,6 +355,9 @@ func (b *c17Builder) interfaces() {
 		// an interface field with arguments and an interface-typed interface field
 		i0.add(&c17Field{Name: "describe", Type: "String", Args: []*c17Arg{{Name: "upper", Type: "Boolean"}}})
 		i0.add(&c17Field{Name: "peer", Type: i0.Name})
+		// object-typed interface field; one implementor narrows it to non-null (covariance):
+		// the generated getter has to convert between value and pointer
+		i0.add(&c17Field{Name: "linked", Type: b.obj(len(b.objs) - 1).Name})
 		if b.row.B("lists") {
 			// list-typed interface fields (slice getters of the generated models)
 			i0.add(&c17Field{Name: "relatedNodes", Type: "[" + i0.Name + "!]"})
@@ -933,6 +939,7 @@ func (b *c17Builder) defaults() {
 		in.add(&c17Field{Name: "nullDefault", Type: "Float", Default: "null"})
 		in2 := b.s.byName[b.input2]
 		in2.add(&c17Field{Name: "rangeDefault", Type: b.input, Default: "{max: 5}"})
+		in2.add(&c17Field{Name: "rangeDefault3", Type: b.input, Default: `{min: 1, max: 5, text: "t"}`})
 		in2.add(&c17Field{Name: "boolDefault", Type: "Boolean!", Default: "false"})
 		if b.enum != "" {
 			e := b.s.byName[b.enum]
@@ -977,8 +984,8 @@ func (b *c17Builder) dirType() {
 	b.decl("directive @onScalar(tag: String) on SCALAR")
 	inArg := ""
 	if b.input != "" {
-		b.decl(fmt.Sprintf("directive @withInput(in: %s, ins: [%s!]) on FIELD_DEFINITION | ARGUMENT_DEFINITION", b.input, b.input))
-		inArg = "@withInput(in: {max: 3}, ins: [{max: 1}])"
+		b.decl(fmt.Sprintf(`directive @withInput(in: %s = {min: 0, max: 9, text: "d"}, ins: [%s!]) on FIELD_DEFINITION | ARGUMENT_DEFINITION`, b.input, b.input))
+		inArg = `@withInput(in: {min: 1, max: 3, text: "x"}, ins: [{max: 1}])`
 	}
 	if b.row.B("idKeyword") {
 		if b.quirk["dirArgPredeclared"] {
@@ -1240,28 +1247,31 @@ func (b *c17Builder) SDLFiles(nfiles int) map[string]string {
 	if nfiles < 2 {
 		nfiles = 2
 	}
-	b.feature("files", func() {})
+	// placement and order depend on (seed, type name) only, so that a schema that grows
+	// (evolutions) keeps every definition in its file
+	hv := func(name string, salt string) uint64 {
+		h := fnv.New64a()
+		_, _ = fmt.Fprintf(h, "%d/%s/%s", b.seed, salt, name)
+		return h.Sum64() >> 3
+	}
 	bufs := make([][]string, nfiles)
 	types := append([]*c17Type{}, b.s.Types...)
-	b.rng.Shuffle(len(types), func(i, j int) { types[i], types[j] = types[j], types[i] })
+	sort.SliceStable(types, func(i, j int) bool { return hv(types[i].Name, "order") < hv(types[j].Name, "order") })
 	home := map[string]int{}
-	for i, t := range types {
-		f := i % nfiles
-		if i >= nfiles && b.rng.Intn(3) == 0 {
-			f = b.rng.Intn(nfiles)
-		}
+	for _, t := range types {
+		f := int(hv(t.Name, "home") % uint64(nfiles))
 		home[t.Name] = f
 		bufs[f] = append(bufs[f], c17TypeSDL(t, false))
 	}
 	for _, t := range types {
 		if len(t.ExtFields)+len(t.ExtVals)+len(t.ExtMembers) > 0 {
-			f := (home[t.Name] + 1 + b.rng.Intn(nfiles-1)) % nfiles
+			f := (home[t.Name] + 1 + int(hv(t.Name, "ext")%uint64(nfiles-1))) % nfiles
 			bufs[f] = append(bufs[f], c17TypeSDL(t, true))
 		}
 	}
 	decls := append([]string{}, b.s.DirDecls...)
 	sort.Strings(decls)
-	df := b.rng.Intn(nfiles)
+	df := int(hv("", "decls") % uint64(nfiles))
 	out := map[string]string{}
 	for i := 0; i < nfiles; i++ {
 		var sb strings.Builder
